@@ -57,5 +57,7 @@ func acquireWriterState() *writerState {
 
 func releaseWriterState(s *writerState) {
 	s.reset()
+	s.releaseState = false
+	s.releaseWriter = false
 	writerStatePool.Put(s)
 }
